@@ -1,6 +1,7 @@
 #include "libphysica/Linear_Algebra.hpp"
 
 #include <cmath>
+#include <limits>
 #include <numeric>
 
 #include "libphysica/Special_Functions.hpp"
@@ -1132,21 +1133,65 @@ std::vector<double> Eigenvalues(const Matrix& M)
 	std::exit(EXIT_FAILURE);
 }
 
+// Solves A x = b by Gaussian elimination with partial pivoting. A pivot that vanishes is replaced by 'tiny': Inverse iteration works with a matrix that is singular to working precision on purpose.
+Vector Solve_Linear_System(Matrix A, Vector b, double tiny)
+{
+	unsigned int N = A.Rows();
+	for(unsigned int i = 0; i < N; i++)
+	{
+		unsigned int pivot_row = i;
+		for(unsigned int j = i + 1; j < N; j++)
+			if(fabs(A[j][i]) > fabs(A[pivot_row][i]))
+				pivot_row = j;
+		if(pivot_row != i)
+		{
+			std::swap(A[i], A[pivot_row]);
+			std::swap(b[i], b[pivot_row]);
+		}
+		if(fabs(A[i][i]) < tiny)
+			A[i][i] = tiny;
+		for(unsigned int j = i + 1; j < N; j++)
+		{
+			double ratio = A[j][i] / A[i][i];
+			for(unsigned int k = i; k < N; k++)
+				A[j][k] -= ratio * A[i][k];
+			b[j] -= ratio * b[i];
+		}
+	}
+	Vector x(N, 0.0);
+	for(int i = N - 1; i >= 0; i--)
+	{
+		double sum = b[i];
+		for(unsigned int k = i + 1; k < N; k++)
+			sum -= A[i][k] * x[k];
+		x[i] = sum / A[i][i];
+	}
+	return x;
+}
+
+// Inverse iteration with the (accurate) eigenvalue of the QR algorithm as fixed shift. The eigenvalue is refined by the Rayleigh quotient of the converged vector.
 Vector Find_Eigenvector_Rayleigh(Matrix& M, double& eigenvalue)
 {
-	Vector b(M.Rows(), 1.0);
-	Matrix I	   = Identity_Matrix(M.Rows());
-	double epsilon = 1.0;
-	while(epsilon > 1.0e-10)
+	unsigned int N = M.Rows();
+	double scale   = M.Norm();
+	double tiny	   = std::numeric_limits<double>::epsilon() * ((scale > 0.0) ? scale : 1.0);
+	Matrix A	   = M - (eigenvalue * Identity_Matrix(N));
+	// Start vector without symmetries, it must not be orthogonal to the eigenvector.
+	Vector b(N);
+	for(unsigned int i = 0; i < N; i++)
+		b[i] = 1.0 + 0.6180339887498949 * i / N;
+	b.Normalize();
+	for(int iteration = 0; iteration < 50; iteration++)
 	{
 		Vector b_before = b;
-		b				= (M - (eigenvalue * I)).Inverse() * b;
+		b				= Solve_Linear_System(A, b, tiny);
 		b.Normalize();
-		eigenvalue = b * (M * b);
-		epsilon	   = 0.0;
-		for(unsigned int i = 0; i < b.Size(); i++)
-			epsilon += Relative_Difference(fabs(b[i]), fabs(b_before[i]));
+		if(b * b_before < 0.0)
+			b = -1.0 * b;
+		if((b - b_before).Norm() < 1.0e-14)
+			break;
 	}
+	eigenvalue = b * (M * b);
 	return b;
 }
 
